@@ -28,6 +28,10 @@ namespace c15
         virtual bool set_size_cursor(unsigned len, unsigned cur) = 0; // igris::sline::set_size_and_cursor
         virtual int backspace(unsigned n) = 0;
         virtual int del(unsigned n) = 0;
+        // the count given as an `int` (round 3b): igris::sline::backspace(int) / del(int) take it as it is, the C
+        // family writes the conversion to the `unsigned int` parameter out
+        virtual int backspace_i(int n) = 0;
+        virtual int del_i(int n) = 0;
         virtual int left() = 0;
         virtual int right() = 0;
         virtual void reset() = 0;
